@@ -22,6 +22,7 @@ AtWild == OQ(Q("@", <<Child(SWild)>>))
 ReA == ORe(Chr(97), FALSE)
 One == OLit(IntV(1))
 Expr(e) == [k |-> "expr", e |-> e]
+Paren(e) == [k |-> "paren", e |-> e]
 LitE(v) == [k |-> "litexpr", v |-> v]
 
 Good == { ETest(Q("@", <<Child(SName(a_))>>)), ECmp("==", At1(a_), One), ECmp(">", OFn("length", <<At1(a_)>>), One),
@@ -41,11 +42,15 @@ Bad == { ECmp("==", AtWild, One), ECmp("==", One, OQ(Q("@", <<Descend(SName(a_))
          LitE(IntV(1)), LitE(Str(a_)), LitE(Bool(TRUE)), LitE(Null),
          ECmp("==", OFn("count", <<OFn("value", <<AtWild>>)>>), One), ECmp("==", OFn("length", <<OFn("match", <<At1(a_), ReA>>)>>), One),
          ECmp("==", OFn("count", <<Expr(ECmp("==", At1(a_), One))>>), One), EFTest("match", <<At1(a_), Expr(ECmp("==", At1(b_), One))>>),
-         ECmp("==", OFn("value", <<OFn("count", <<AtWild>>)>>), One) }
+         ECmp("==", OFn("value", <<OFn("count", <<AtWild>>)>>), One),
+         \* a parenthesised argument is a logical expression (RFC 9535 2.4: paren-expr), which none of the five functions takes
+         ECmp("==", OFn("length", <<Expr(Paren(ETest(Q("@", <<Child(SName(a_))>>))))>>), One),
+         ECmp("==", OFn("count", <<Expr(Paren(ETest(Q("@", <<Child(SWild)>>))))>>), One),
+         EFTest("match", <<Expr(Paren(ETest(Q("@", <<Child(SName(a_))>>)))), ReA>>),
+         EFTest("search", <<At1(a_), Expr(Paren(LitE(Str(a_))))>>) }
 
 G1 == ETest(Q("@", <<Child(SName(b_))>>))
 G2 == ECmp("==", At1(b_), OLit(IntV(2)))
-Paren(e) == [k |-> "paren", e |-> e]
 Contexts(x) == { x, ENot(x), Paren(x), EAnd(x, G1), EAnd(G1, x), EOr(G2, x), EOr(x, G2), ENot(Paren(EOr(x, G1))), EAnd(G2, ENot(x)),
                  ETest(Q("@", <<Child(SFilter(x))>>)), ENot(ETest(Q("@", <<Child(SFilter(EAnd(G1, x)))>>))) }
 F(e) == Q("$", <<Child(SFilter(e))>>)
@@ -61,8 +66,13 @@ RawSels ==
     Raw(Big \o <<49, 58, 45>> \o Big \o <<49, 58>> \o Big \o <<49>>, Hi >= 100 /\ Lo <= -100), Raw(<<48, 49, 58>>, TRUE) }
 \* (the last: a leading zero in a slice bound is outside the property's list; the RFC grammar refuses it,
 \*  kept out by marking it ok - see DESIGN.md section 7 - and excluded from the comparison below)
-IntSels == {SIndex(i) : i \in {0, 5, 6, -5, -6, 99}} \cup {SSlice(<<lo>>, <<>>, <<>>) : lo \in {5, 6, -6}} \cup {SSlice(<<>>, <<hi>>, <<>>) : hi \in {5, 6, -6}}
-           \cup {SSlice(<<>>, <<>>, <<st>>) : st \in {5, 6, -5, -6}}
+\* integers at, just inside and just outside either limit, and their mirror images (the limits need not be symmetric);
+\* under the default limits the same small numbers are all in range
+BHi == IF Hi >= 100 THEN 5 ELSE Hi
+BLo == IF Lo <= -100 THEN -5 ELSE Lo
+Pts == {BHi, BHi + 1, BLo, BLo - 1, -BHi, -BHi - 1, -BLo, -BLo + 1}
+IntSels == {SIndex(i) : i \in Pts \cup {0, 99}} \cup {SSlice(<<lo>>, <<>>, <<>>) : lo \in Pts} \cup {SSlice(<<>>, <<hi>>, <<>>) : hi \in Pts}
+           \cup {SSlice(<<>>, <<>>, <<st>>) : st \in Pts}
 SelPrograms(S) ==
   {Q("$", <<Child(s)>>) : s \in S} \cup {Q("$", <<Seg(FALSE, <<SIndex(0), s>>)>>) : s \in S} \cup {Q("$", <<Seg(TRUE, <<s, SName(a_)>>)>>) : s \in S}
   \cup {F(ETest(Q("@", <<Child(s)>>))) : s \in S} \cup {F(ECmp("==", OFn("count", <<OQ(Q("@", <<Child(s)>>))>>), One)) : s \in S}
